@@ -110,10 +110,14 @@ func runAnyutil(cfg *Cfg) {
 			msg := t.B.ToMessage(0, v)
 			out.Case("pack"+t.Full+v.String(), true)
 			opts := proto.MarshalOptions{Deterministic: r.Bool()}
-			dst := &anypb.Any{TypeUrl: "old", Value: []byte("old")}
+			// what the destination holds before: something unrelated, or the SAME type under another spelling of
+			// its URL (host-prefixed as anypb.New writes it, longer prefix, bare name): a successful pack must
+			// leave exactly "/" + full name
+			before := []string{"old", "type.googleapis.com/" + t.Full, "example.org/x/" + t.Full, t.Full, "/" + t.Full, ""}[c%6]
+			dst := &anypb.Any{TypeUrl: before, Value: []byte("old")}
 			var err error
 			p, pm := guard(func() { err = anyutil.MarshalFrom(dst, msg, opts) })
-			replay := "anypack " + t.Full + " " + v.String()
+			replay := "anypack " + t.Full + " dst.TypeUrl=" + before + " " + v.String()
 			if p {
 				out.Violate("C16", "pack-panic", "MarshalFrom panicked: "+pm, replay)
 				continue
@@ -124,7 +128,7 @@ func runAnyutil(cfg *Cfg) {
 				continue
 			}
 			if err != nil {
-				if dst.TypeUrl != "old" || string(dst.Value) != "old" {
+				if dst.TypeUrl != before || string(dst.Value) != "old" {
 					out.Violate("C16", "pack-failure-touches-dst", "failed pack modified the destination", replay)
 				}
 				continue
